@@ -525,6 +525,69 @@ add('c14-benign-tolerate-more', 'C14', 'benign', [(BUILDER, """                N
                 InvalidRangeName
             ))""")])
 
+# ---------------------------------------------------------------- C02
+add('c02-lt-le-swapped', 'C02', 'break', [(OPS, """    ('<=', lambda x, y: x <= y),""", """    ('<=', lambda x, y: x < y),""")], expect='C02.optable')
+add('c02-minus-operands-swapped', 'C02', 'break', [(OPS, """    '-': lambda x, y: x - y,""", """    '-': lambda x, y: y - x,""")], expect='C02.optable')
+add('c02-plus-is-minus', 'C02', 'break', [(OPS, """    '+': lambda x, y: x + y,""", """    '+': lambda x, y: x - y,""")], expect='C02.optable')
+add('c02-div-guard-dropped', 'C02', 'break', [(OPS, """    '/': lambda x, y: (x / y) if y else Error.errors['#DIV/0!'],""", """    '/': lambda x, y: x / y,""")], expect='C02.optable')
+add('c02-div-wrong-error', 'C02', 'break', [(OPS, """    '/': lambda x, y: (x / y) if y else Error.errors['#DIV/0!'],""", """    '/': lambda x, y: (x / y) if y else Error.errors['#NUM!'],""")], expect='C02.optable')
+add('c02-percent-divides-by-ten', 'C02', 'break', [(OPS, """    '%': lambda x: x / 100.0,""", """    '%': lambda x: x / 10.0,""")], expect='C02.optable')
+add('c02-concat-reversed', 'C02', 'break', [(OPS, """OPERATORS['&'] = wrap_ufunc(
+    lambda x, y: x + y,""", """OPERATORS['&'] = wrap_ufunc(
+    lambda x, y: y + x,""")], expect='C02.optable')
+add('c02-logic-operators-prefix-order', 'C02', 'break', [(OPS, """    ('>=', lambda x, y: x >= y),
+    ('<=', lambda x, y: x <= y),
+    ('<>', lambda x, y: x != y),
+    ('<', lambda x, y: x < y),
+    ('>', lambda x, y: x > y),""", """    ('<', lambda x, y: x < y),
+    ('>', lambda x, y: x > y),
+    ('>=', lambda x, y: x >= y),
+    ('<=', lambda x, y: x <= y),
+    ('<>', lambda x, y: x != y),""")], expect='C02.optable')
+add('c02-plus-no-error-check', 'C02', 'break', [(OPS, """numeric_wrap = functools.partial(wrap_ufunc)""", """numeric_wrap = functools.partial(wrap_ufunc, check_error=lambda *a: None)""")], expect='C02.errfirst')
+add('c02-safe-eval-core-first', 'C02', 'break', [(F, """            r = check_error(*vals) or convert_noshp(func(*input_parser(*vals)))""", """            r = convert_noshp(func(*input_parser(*vals))) or check_error(*vals)""")], expect='C02.errfirst')
+add('c02-get-error-last', 'C02', 'break', [(F, """    for v in flatten(vals, None, True):
+        if isinstance(v, XlError):
+            return v""", """    for v in reversed(list(flatten(vals, None, True))):
+        if isinstance(v, XlError):
+            return v""")], expect='C02.errfirst')
+add('c02-rank-bool-as-number', 'C02', 'break', [(LOOK, """    if isinstance(obj, (bool, np.bool_)):
+        return 2""", """    if isinstance(obj, (bool, np.bool_)):
+        return 0""")], expect='C02.rank')
+add('c02-rank-text-above-logical', 'C02', 'break', [(LOOK, """    elif isinstance(obj, (str, np.str_)) and not isinstance(obj, XlError):
+        return 1""", """    elif isinstance(obj, (str, np.str_)) and not isinstance(obj, XlError):
+        return 3""")], expect='C02.rank')
+add('c02-rank-error-as-text', 'C02', 'break', [(LOOK, """    elif isinstance(obj, (str, np.str_)) and not isinstance(obj, XlError):
+        return 1""", """    elif isinstance(obj, (str, np.str_)):
+        return 1""")], expect='C02.rank')
+add('c02-parser-rank-of-other-operand', 'C02', 'break', [(OPS, """    return (_get_type_id(x), x), (_get_type_id(y), y)""", """    return (_get_type_id(x), x), (_get_type_id(x), y)""")], expect='C02.rank')
+add('c02-typeerror-unhandled', 'C02', 'break', [(F, """        except (ValueError, TypeError):
+            r = Error.errors['#VALUE!']
+        return r""", """        except ValueError:
+            r = Error.errors['#VALUE!']
+        return r""")], expect='C02.funnel')
+add('c02-pow-fix-reverted', 'C02', 'break', [(OPS, """    '^': xpow,""", """    '^': lambda x, y: x ** y,""")], expect='C02.pow')
+add('c02-pow-no-complex-check', 'C02', 'break', [(OPS, """    return Error.errors['#NUM!'] if isinstance(r, complex) else r""", """    return r""")], expect='C02.pow')
+add('c02-benign-operator-module', 'C02', 'benign', [(OPS, """    '+': lambda x, y: x + y,""", """    '+': operator.add,"""), (OPS, """import collections
+from . import""", """import collections
+import operator
+from . import""")])
+add('c02-benign-lambda-to-def', 'C02', 'benign', [(OPS, """numeric_wrap = functools.partial(wrap_ufunc)
+""", """numeric_wrap = functools.partial(wrap_ufunc)
+
+
+def _times(x, y):
+    return x * y
+"""), (OPS, """    '*': lambda x, y: x * y,""", """    '*': _times,""")])
+add('c02-benign-ranks-rescaled', 'C02', 'benign', [(LOOK, """        return 2
+    elif isinstance(obj, (str, np.str_)) and not isinstance(obj, XlError):
+        return 1
+    return 0""", """        return 20
+    elif isinstance(obj, (str, np.str_)) and not isinstance(obj, XlError):
+        return 10
+    return 0""")])
+add('c02-benign-div-guard-rewritten', 'C02', 'benign', [(OPS, """    '/': lambda x, y: (x / y) if y else Error.errors['#DIV/0!'],""", """    '/': lambda x, y: Error.errors['#DIV/0!'] if y == 0 else x / y,""")])
+
 if __name__ == '__main__':
     here = os.path.dirname(os.path.abspath(__file__))
     ids = [v['id'] for v in V]
